@@ -16,8 +16,10 @@ from concurrent.futures import ProcessPoolExecutor, as_completed
 from . import core
 
 VERIF = os.path.dirname(os.path.dirname(os.path.abspath(__file__)))
-REPLAYS = os.path.join(VERIF, "replays")
-EVIDENCE = os.path.join(VERIF, "evidence")
+# (the two overrides are used by selftest/sensitivity.py only, so that runs against scratch
+#  mutants never touch the evidence and replays of the real tree)
+REPLAYS = os.environ.get("VERIF_REPLAY_DIR") or os.path.join(VERIF, "replays")
+EVIDENCE = os.environ.get("VERIF_EVIDENCE_DIR") or os.path.join(VERIF, "evidence")
 KNOWN = os.path.join(VERIF, "known_findings.json")
 
 _HEX = re.compile(r"0x[0-9a-fA-F]+")
@@ -279,7 +281,7 @@ def main(check_id, tier, argv=None):
     seams.install()
     import gffutils
 
-    if not os.path.realpath(gffutils.__file__).startswith("/repo/"):
+    if not os.path.realpath(gffutils.__file__).startswith(os.environ.get("VERIF_REPO", "/repo/")):
         print("HARNESS-ERROR: gffutils imported from %s, not /repo" % gffutils.__file__)
         return 2
     check = _load_check(check_id)
